@@ -34,8 +34,11 @@ func RunATPServer(
 }
 
 type atpServerSession struct {
-	ctx            context.Context
-	wg             *sync.WaitGroup
+	ctx context.Context
+	wg  *sync.WaitGroup
+	// handlersWG counts the running step and signal handlers. They report their errors through workDone, so that
+	// channel must stay open until they are all done.
+	handlersWG     *sync.WaitGroup
 	stdinCloser    io.ReadCloser
 	cborStdin      *cbor.Decoder
 	cborStdout     *cbor.Encoder
@@ -78,6 +81,7 @@ func initializeATPServerSession(
 		runDoneChannel: runDoneChannel,
 		pluginSchema:   pluginSchema,
 		wg:             &sync.WaitGroup{},
+		handlersWG:     &sync.WaitGroup{},
 		runningSteps:   make(map[string]string),
 	}
 }
@@ -105,6 +109,8 @@ func (s *atpServerSession) sendRuntimeMessage(msgID uint32, runID string, messag
 func (s *atpServerSession) handleClosure() []*ServerError {
 	// Wait for work done or context complete.
 	var errors []*ServerError
+	// Set when an error report could not be sent: from then on errors are only collected.
+	outputBroken := false
 closeLoop:
 	for {
 		select {
@@ -113,6 +119,9 @@ closeLoop:
 				break closeLoop
 			}
 			errors = append(errors, &errorSent)
+			if outputBroken {
+				continue
+			}
 			err := s.sendRuntimeMessage(
 				MessageTypeError,
 				errorSent.RunID,
@@ -125,27 +134,34 @@ closeLoop:
 			// If that didn't send, just send to stderr now.
 			if err != nil {
 				_, _ = fmt.Fprintf(os.Stderr, "error while sending error message: %s\n", err)
+				outputBroken = true
 			}
-			// If either the error report sending failed, or the error was server fatal, stop here.
+			// If either the error report sending failed, or the error was server fatal, stop reading input.
+			// Keep receiving from workDone until it is closed, that is until the read loop has ended and the
+			// running steps are done: they report their errors through this channel and would otherwise block
+			// on it forever (or never get their step-fatal error delivered to the client).
 			if err != nil || errorSent.ServerFatal {
 				err = s.stdinCloser.Close()
 				if err != nil {
-					return append(errors, &ServerError{
+					errors = append(errors, &ServerError{
 						RunID:       errorSent.RunID,
 						Err:         fmt.Errorf("error closing stdin (%w) after workDone error (%v)", err, errorSent),
 						StepFatal:   true,
 						ServerFatal: true,
 					})
-				} else {
-					break closeLoop
 				}
 			}
 		case <-s.ctx.Done():
-			// Likely got sigterm. Just close. Ideally gracefully.
+			// Nobody will look at further errors, but the senders must not block.
+			go func() {
+				//nolint:revive // intentionally empty: drain the channel
+				for range s.workDone {
+				}
+			}()
 			break closeLoop
 		}
 	}
-	// Now close the pipe that it gets input from.
+
 	return errors
 }
 
@@ -250,10 +266,10 @@ func (s *atpServerSession) handleWorkStartMessage(runID string, workStartMsg Wor
 		return
 	}
 	s.runningSteps[runID] = workStartMsg.StepID
-	s.wg.Add(1) // Wait until the step is done
+	s.handlersWG.Add(1) // Wait until the step is done
 	go func() {
 		s.runStep(runID, workStartMsg)
-		s.wg.Done()
+		s.handlersWG.Done()
 	}()
 }
 
@@ -277,7 +293,7 @@ func (s *atpServerSession) handleSignalMessage(runID string, signalMessage Signa
 		}
 		return
 	}
-	s.wg.Add(1) // Wait until the signal handler is done
+	s.handlersWG.Add(1) // Wait until the signal handler is done
 	go func() {
 		if err := s.pluginSchema.CallSignal(
 			s.ctx,
@@ -294,13 +310,16 @@ func (s *atpServerSession) handleSignalMessage(runID string, signalMessage Signa
 				ServerFatal: false,
 			}
 		}
-		s.wg.Done()
+		s.handlersWG.Done()
 	}()
 }
 
 func (s *atpServerSession) run() {
 	defer func() {
 		s.runDoneChannel <- true
+		// Steps and signal handlers that are still running when the input ends may still have errors to report;
+		// closing workDone before they are done makes them panic with "send on closed channel".
+		s.handlersWG.Wait()
 		close(s.workDone)
 		s.wg.Done()
 	}()
